@@ -10,7 +10,7 @@ import (
 func runExtractor() string {
 	lean := filepath.Join(Root, "lean")
 	for _, f := range []func(string, string) error{extract.RunFacts, extract.RunExtractErrSites, extract.RunExtractStores} {
-		if err := f("/repo", lean); err != nil {
+		if err := f("/var/tmp/repo-snap13", lean); err != nil {
 			return err.Error()
 		}
 	}
